@@ -465,6 +465,10 @@ def strict_lp(wire, with_tl=True):
             for (t2, ts2, vs2, ve2) in children(buf, cvs, cve):
                 if t2 == L['NACK_REASON'] and out['nack_reason'] is None:
                     out['nack_reason'] = read_nni(buf, vs2, ve2)
+            if out['nack_reason'] is None:
+                # NDNLPv2: the NackReason element is optional; a Nack header without it is a Nack without a stated reason (None = 0)
+                out['nack_reason'] = 0
+                out['nack_reason_omitted'] = True
         elif t == L['FRAGMENT'] and out['fragment'] is None:
             out['fragment'] = bytes(buf[cvs:cve])
     return out
